@@ -19,6 +19,8 @@
 (*   console  plain-text output: same exit code, same multiset of lines    *)
 (*   rulegen  the generated rules text: same exit code, same multiset of   *)
 (*            lines                                                        *)
+(*   mixed    --print-json inside console text: the JSON documents (`out`) *)
+(*            byte for byte, the whole output as a multiset of lines       *)
 (* stderr (diagnostics) is compared as a multiset of lines in every class. *)
 (***************************************************************************)
 EXTENDS Integers, Sequences, FiniteSets, TLC, Json, IOUtils
@@ -34,9 +36,8 @@ Same(runs, f) == \A k \in 1 .. Len(runs) : runs[k][f] = runs[1][f]
 Step(line) ==
   /\ Len(line.runs) >= 5
   /\ Relate(line.i, "same-exit", Same(line.runs, "exit"))
-  /\ IF line.class = "bytes"
-     THEN Relate(line.i, "same-bytes", Same(line.runs, "out"))
-     ELSE Relate(line.i, "same-lines", Same(line.runs, "lines"))
+  /\ line.class \in {"bytes", "mixed"} => Relate(line.i, "same-bytes", Same(line.runs, "out"))
+  /\ line.class # "bytes" => Relate(line.i, "same-lines", Same(line.runs, "lines"))
   /\ Relate(line.i, "same-diagnostics", Same(line.runs, "elines"))
 
 Init == l = 1
